@@ -12,4 +12,5 @@ def run(c):
     c.guard("blocks", st.get("blocks", 0))
     c.guard("rich_builds", st.get("rich_builds", 0))
     c.guard("rebuilds", st.get("rebuilds", 0))
+    c.guard("rich_builds_after_1000_events", st.get("rich_builds_after_1000_events", 0))
     return lc.finish(c, res, "speculative builds (random parents) and wrong-frame Process calls injected before 80% of the events; all later verdicts, frames and blocks validated; clean twin compared", extra=None)
